@@ -1717,6 +1717,20 @@ func (m *repoManager) hideBranch(uuid dvid.UUID, branch string) error {
 	}
 	m.repoMutex.Lock()
 	r.Lock()
+	// A node outside the branch that has a parent on it (a branch, a tag or a merge below the
+	// branch) would be left with a parent that no longer exists: refuse before anything is removed.
+	for _, node := range r.dag.nodes {
+		if node.branch == branch {
+			continue
+		}
+		for _, pv := range node.parents {
+			if parent, found := r.dag.nodes[pv]; found && parent.branch == branch {
+				r.Unlock()
+				m.repoMutex.Unlock()
+				return fmt.Errorf("cannot hide branch %q: version %s (branch %q) descends from it", branch, node.uuid, node.branch)
+			}
+		}
+	}
 	del_set := make(map[dvid.VersionID]struct{})
 	for v, node := range r.dag.nodes {
 		if node.branch == branch {
